@@ -65,8 +65,10 @@ Check(T, e) ==
     [] e.op = "open"    -> Against(T, e, SpecOpen(S, e.path))
     [] e.op = "add"     -> Against(T, e, SpecAdd(S, e.h, e.pid))
     [] e.op = "destroy" -> Against(T, e, SpecDestroy(S, e.h))
-    [] e.op = "set"     -> (IF e.err THEN "unexpected-error" ELSE IF e.rb # Limit(e) THEN "limit-not-in-force"
-                            ELSE Against(T, e, Res(S, FALSE, 0)))
+    \* a limit the kernel refuses (hierarchy constraints, usage above the limit) is reported as an
+    \* error; a limit that was accepted must be the one in force
+    [] e.op = "set"     -> (IF ~e.err /\ e.rb # Limit(e) THEN "limit-not-in-force"
+                            ELSE Against(T, e, Res(S, e.err, 0)))
     [] e.op = "cdone"   -> CheckDone(e)
     [] e.op = "rdestroy" -> CheckRDestroy(e)
     [] OTHER -> "unknown-event"
